@@ -104,6 +104,8 @@ func runCase1(o *hx.Out, p params) (result string, total int64) {
 		return runCancelCase(o, p)
 	case "tail":
 		return runTailCase(o, p)
+	case "trim":
+		return runTrimCase(o, p)
 	}
 	panic("unknown leg " + p.leg)
 }
@@ -221,7 +223,7 @@ func main() {
 	legs := []struct {
 		leg   string
 		share int
-	}{{"leader", 49}, {"follower", 34}, {"reelect", 8}, {"snapshot", 7}, {"overlap", 2}, {"cancel", 1}, {"tail", 1}}
+	}{{"leader", 49}, {"follower", 34}, {"reelect", 8}, {"snapshot", 7}, {"overlap", 2}, {"cancel", 1}, {"tail", 1}, {"trim", 1}}
 	cum := 0
 	for _, lg := range legs {
 		t0 := time.Now()
